@@ -62,6 +62,22 @@ def _fresh_context_check(pc, goal, rlimit, seed=0):
     return "unsat" if r == z3.unsat else ("sat" if r == z3.sat else None)
 
 
+def _has_quant(pc, goal):
+    seen = set()
+    stack = list(pc) + [goal]
+    n = 0
+    while stack and n < 20000:
+        x = stack.pop()
+        if x.get_id() in seen:
+            continue
+        seen.add(x.get_id())
+        n += 1
+        if z3.is_quantifier(x):
+            return True
+        stack.extend(x.children())
+    return False
+
+
 def discharge(ob, tier="quick", want_model=True):
     """sets ob.status in {'proved','failed','unknown'}"""
     t0 = time.time()
@@ -74,6 +90,18 @@ def discharge(ob, tier="quick", want_model=True):
         r0 = try_bitblast(ob.pc, goal, rl)
         if r0 == z3.unsat:
             ob.status, ob.backend, ob.time = "proved", "z3-%s(api, bit-blast tactic)" % z3.get_version_string(), time.time() - t0
+            return ob
+    if _has_quant(ob.pc, goal):
+        # quantified context: a cheap first attempt by e-matching only (no model-based instantiation); `unsat` is a proof
+        s0 = z3.Solver()
+        s0.set("smt.mbqi", False)
+        s0.set("smt.auto_config", False)
+        s0.set("rlimit", min(rl, 5_000_000))
+        for c in ob.pc:
+            s0.add(c)
+        s0.add(z3.Not(goal))
+        if s0.check() == z3.unsat:
+            ob.status, ob.backend, ob.time = "proved", "z3-%s(api, e-matching)" % z3.get_version_string(), time.time() - t0
             return ob
     s = _solver(ob.pc, goal, rl)
     r = s.check()
